@@ -2,9 +2,30 @@
 C20 layer (b), proofs: `completable` of the round on the compressed graph = `completable` of the model round.
 -/
 import Gossamer.Lib.C20GraphRoundSim
+import Gossamer.Lib.C20Possible
 namespace Gossamer.C20
 
 variable {t : Tree} {ws : List Nat}
+
+/-- the value `possibleToPrecommit` compares with the threshold, as a function of the precommit weight of the node -/
+def possibleFull (ws : List Nat) (cur : Nat) (eqv : Mask) (W : Nat) : Nat :=
+  let tot := total ws
+  let thr := threshold tot
+  let tolerated := sub64 tot thr
+  let currentEquiv := maskWeight ws eqv 1
+  let additionalEquiv := sub64 tolerated currentEquiv
+  let remaining := sub64 tot cur
+  let d := sub64 cur W
+  let possibleEquiv := if d ≤ additionalEquiv then d else additionalEquiv
+  add64 (add64 W remaining) possibleEquiv
+
+theorem possible_eq_full (ws : List Nat) (cur : Nat) (eqv m : Mask) :
+    possibleToPrecommit ws cur eqv m =
+      decide (possibleFull ws cur eqv (nodeWeight ws eqv m true) ≥ threshold (total ws)) := rfl
+
+theorem sub64_wrap {a b : Nat} (hab : a < b) (hb : b < MOD) : sub64 a b = a + MOD - b := by
+  unfold sub64
+  rw [Nat.mod_eq_of_lt hb, Nat.mod_eq_of_lt (by omega)]
 
 /-- `possibleToPrecommit` is monotone in the votes when the equivocation budget does not wrap around -/
 theorem possible_mono (ws : List Nat) (cur : Nat) (eqv : Mask)
@@ -19,16 +40,39 @@ theorem possible_mono (ws : List Nat) (cur : Nat) (eqv : Mask)
     rcases hv with hv | hv
     · exact Or.inl (Or.inl hv)
     · exact Or.inr hv
+  have hW1 : nodeWeight ws eqv m true ≤ total ws := wsum_le_total ws _
   have hW2 : nodeWeight ws eqv (m ||| m') true ≤ total ws := wsum_le_total ws _
   have hthr := threshold_le (total ws)
-  unfold possibleToPrecommit at *
-  simp only [decide_eq_true_eq] at *
+  have key : ∀ W, W ≤ total ws → possibleFull ws cur eqv W =
+      W + (total ws - cur) +
+        (if W ≤ cur then min (cur - W) (total ws - threshold (total ws) - maskWeight ws eqv 1)
+         else total ws - threshold (total ws) - maskWeight ws eqv 1) := by
+    intro W hWt
+    unfold possibleFull
+    simp only
+    rw [sub64_eq hthr (by omega), sub64_eq he (by omega), sub64_eq hcur (by omega)]
+    by_cases hWc : W ≤ cur
+    · rw [sub64_eq hWc (by omega)]
+      simp only [hWc, if_true]
+      have hmin : (if cur - W ≤ total ws - threshold (total ws) - maskWeight ws eqv 1 then cur - W
+          else total ws - threshold (total ws) - maskWeight ws eqv 1) =
+          min (cur - W) (total ws - threshold (total ws) - maskWeight ws eqv 1) := by
+        split <;> omega
+      rw [hmin, add64_eq (a := W) (by omega), add64_eq (by omega)]
+    · rw [sub64_wrap (by omega) (by omega)]
+      simp only [hWc, if_false]
+      have hbig : ¬ cur + MOD - W ≤ total ws - threshold (total ws) - maskWeight ws eqv 1 := by omega
+      simp only [hbig, if_false]
+      rw [add64_eq (a := W) (by omega), add64_eq (by omega)]
+  rw [possible_eq_full] at hm ⊢
+  simp only [decide_eq_true_eq] at hm ⊢
+  rw [key _ hW1] at hm
+  rw [key _ hW2]
   generalize nodeWeight ws eqv m true = W1 at *
   generalize nodeWeight ws eqv (m ||| m') true = W2 at *
   generalize maskWeight ws eqv 1 = e at *
   generalize total ws = tot at *
   generalize threshold tot = thr at *
-  unfold sub64 add64 MOD at *
   split at hm <;> split <;> omega
 
 /-- the search ends at its start block iff no child of the start block is good -/
@@ -88,7 +132,7 @@ theorem sim_update_compl (h : t.WF) (key : Nat → Nat) {ins : Ins} {r : Round} 
               unfold findAncestor at hE
               rw [hbin] at hE
               simp only [if_true] at hE
-              exact List.find?_some hE
+              simpa using List.find?_some hE
             have hcurE : ∀ x, (some E : Option Nat) = some x → x < t.size ∧
                 (inGraph (cumOf t ins) x = true →
                   possibleToPrecommit ws (r.cur true) r.eqv (cumOf t ins x) = true) := by
@@ -132,5 +176,161 @@ theorem sim_update_compl (h : t.WF) (key : Nat → Nat) {ins : Ins} {r : Round} 
           · have h3 : (E != b) = true := by simpa using hEb
             simp [h3]
       · simp only [h2, if_false]; exact hc
+
+end Gossamer.C20
+
+namespace Gossamer.C20
+
+variable {t : Tree} {ws : List Nat}
+
+theorem ghostStep_compl (t : Tree) (ws : List Nat) (ph : Bool) (r : Round) :
+    (ghostStep t ws ph r).compl = r.compl := by
+  unfold ghostStep; split <;> rfl
+
+theorem ghostStepC_compl (key : Nat → Nat) (t : Tree) (ws : List Nat) (ph : Bool) (r : RoundC) :
+    (ghostStepC key t ws ph r).compl = r.compl := by
+  unfold ghostStepC; split <;> rfl
+
+/-- one effective import keeps `completable` equal -/
+theorem sim_step_core_compl (h : t.WF) (h0 : 0 < total ws) (key : Nat → Nat) (ops : List Op) (o : Op)
+    (hv' : ValidOps t (ops ++ [o])) (htol' : tolerant ws (ops ++ [o]) false = true)
+    (htolc' : tolerant ws (ops ++ [o]) true = true) (hov : 3 * total ws < MOD)
+    (r2 : Round) (rc2 : RoundC) (ins2 : Ins)
+    (hr : run t ws (ops ++ [o]) = update t ws (ghostStep t ws o.ph r2))
+    (hrc : runC key t ws (ops ++ [o]) = updateC key t ws (ghostStepC key t ws o.ph rc2))
+    (inv : GInv t ins2 rc2.graph) (hcum : r2.cum = cumOf t ins2) (hcur : rc2.cur = r2.cur)
+    (heqv : rc2.eqv = r2.eqv) (hs : StateSim t r2 rc2) (hgh : r2.ghost = (run t ws ops).ghost)
+    (hc : rc2.compl = r2.compl) :
+    (runC key t ws (ops ++ [o])).compl = (run t ws (ops ++ [o])).compl := by
+  obtain ⟨hv, _⟩ := validOps_append hv'
+  have htol := tolerant_prefix ws ops o false htol'
+  obtain ⟨_, u2, u3, u4, u5, _⟩ := update_book t ws (ghostStep t ws o.ph r2)
+  obtain ⟨_, g2, g3, g4⟩ := ghostStep_book t ws o.ph r2
+  have hcum' : r2.cum = (run t ws (ops ++ [o])).cum := by rw [hr, u4, g4]
+  have heqv' : r2.eqv = (run t ws (ops ++ [o])).eqv := by rw [hr, u3, g3]
+  have hcur' : r2.cur = (run t ws (ops ++ [o])).cur := by rw [hr, u2, g2]
+  have hu : UniqChild t r2.cum (supermCond ws r2.eqv false) := by
+    rw [hcum', heqv']; exact superm_uniqChild h h0 _ false htol'
+  have hmemo : ∀ b, r2.ghost = some b → b < t.size ∧ supermCond ws r2.eqv false (r2.cum b) = true := by
+    intro b hb
+    rw [hgh] at hb
+    have hg0 := ghost_run h h0 ops hv htol
+    rw [hb] at hg0
+    refine ⟨superm_lt_size h h0 htol hg0.1, ?_⟩
+    rw [hcum', heqv', supermCond_run]
+    exact superm_mono t ws ops o false b hg0.1
+  have s1 := sim_ghostStep (ws := ws) h key o.ph inv hcum hcur heqv hs hu hmemo
+  obtain ⟨_, c2, c3, c4⟩ := ghostStepC_book key t ws o.ph rc2
+  have hg : ∀ b, (ghostStep t ws o.ph r2).ghost = some b →
+      b < t.size ∧ inGraph (ghostStep t ws o.ph r2).cum b = true := by
+    intro b hb
+    have hg1 := ghost_run h h0 (ops ++ [o]) hv' htol'
+    rw [hr, u5, hb] at hg1
+    refine ⟨superm_lt_size h h0 htol' hg1.1, ?_⟩
+    rw [g4, hcum']
+    exact superm_inGraph h0 htol' hg1.1
+  have hm : (ghostStep t ws o.ph r2).cur true ≥ threshold (total ws) →
+      MonoCond (possibleToPrecommit ws ((ghostStep t ws o.ph r2).cur true) (ghostStep t ws o.ph r2).eqv) := by
+    intro _
+    rw [g2, g3, hcur', heqv']
+    apply possible_mono
+    · have := eqvWeight_run t ws (ops ++ [o]) true
+      simp only [phN, if_true] at this
+      rw [this]
+      unfold tolerant faulty at htolc'
+      simpa using htolc'
+    · rw [cur_run]; exact wsum_le_total ws _
+    · exact hov
+  have := sim_update_compl (ws := ws) h key (ins := ins2) (r := ghostStep t ws o.ph r2)
+    (rc := ghostStepC key t ws o.ph rc2) (by rw [c4]; exact inv) (by rw [g4]; exact hcum)
+    (by rw [c2, g2]; exact hcur) (by rw [c3, g3]; exact heqv) s1
+    (by rw [ghostStep_compl, ghostStepC_compl]; exact hc) hg hm
+  rw [hr, hrc]; exact this
+
+/-- **`completable`** of the round on the compressed graph = `completable` of the model round, after every valid
+import history that is tolerant in both phases -/
+theorem complSim_run (h : t.WF) (h0 : 0 < total ws) (key : Nat → Nat) (hov : 3 * total ws < MOD) :
+    ∀ ops, ValidOps t ops → tolerant ws ops false = true → tolerant ws ops true = true →
+    (runC key t ws ops).compl = (run t ws ops).compl := by
+  apply run_induction (fun ops r => ValidOps t ops → tolerant ws ops false = true →
+    tolerant ws ops true = true → (runC key t ws ops).compl = r.compl)
+  · intro _ _ _; rfl
+  · intro ops o ih hv' htol' htolc'
+    obtain ⟨hv, hb⟩ := validOps_append hv'
+    have htol := tolerant_prefix ws ops o false htol'
+    have c0 := ih hv htol (tolerant_prefix ws ops o true htolc')
+    have s0 := stateSim_run h h0 key ops hv htol
+    have bs := bookSim_run key t ws ops
+    have hinv0 : GInv t (insOf t ws ops) (runC key t ws ops).graph := by
+      rw [bs.graph]; exact graphOf_inv h key _ bs.valid
+    rw [← run_append]
+    by_cases hvl : o.v < ws.length
+    · have hvl' : ¬ o.v ≥ ws.length := by omega
+      have hb' : ¬ o.sv.blk ≥ t.size := by omega
+      have htrk : (runC key t ws ops).trk o.ph o.v = (run t ws ops).trk o.ph o.v := by rw [bs.trk]
+      match hslot : (run t ws ops).trk o.ph o.v with
+      | none =>
+        apply sim_step_core_compl h h0 key ops o hv' htol' htolc' hov
+          { run t ws ops with
+            trk := fun p u => if p = o.ph ∧ u = o.v then some (.single o.sv) else (run t ws ops).trk p u,
+            cur := fun p => if p = o.ph then (run t ws ops).cur p + ws.getD o.v 0 else (run t ws ops).cur p,
+            cum := insert t (run t ws ops).cum o.sv.blk (bitPos o.v (phN o.ph)) }
+          { runC key t ws ops with
+            trk := fun p u => if p = o.ph ∧ u = o.v then some (.single o.sv) else (runC key t ws ops).trk p u,
+            cur := fun p => if p = o.ph then (runC key t ws ops).cur p + ws.getD o.v 0
+                            else (runC key t ws ops).cur p,
+            graph := (runC key t ws ops).graph.insert key t o.sv.blk (bitPos o.v (phN o.ph)) }
+          (insOf t ws ops ++ [(o.sv.blk, bitPos o.v (phN o.ph))])
+        · rw [run_append]; simp [step, importVote, hvl', hslot, addVote, hb']
+        · rw [runC_append]; simp [stepC, importVoteC, hvl', htrk, hslot, addVote, hb']
+        · exact insert_inv h hinv0 key _ _ hb
+        · simp only; rw [cumOf_append, bs.cum]
+        · simp only; rw [bs.cur]
+        · exact bs.eqv
+        · exact ⟨s0.ghost, s0.fin, s0.est⟩
+        · rfl
+        · exact c0
+      | some (.single a) =>
+        by_cases heq : a = o.sv
+        · have e1 : run t ws (ops ++ [o]) = run t ws ops := by
+            rw [run_append]; simp [step, importVote, hvl', hslot, addVote, heq]
+          have e2 : runC key t ws (ops ++ [o]) = runC key t ws ops := by
+            rw [runC_append]; simp [stepC, importVoteC, hvl', htrk, hslot, addVote, heq]
+          rw [e1, e2]; exact c0
+        · apply sim_step_core_compl h h0 key ops o hv' htol' htolc' hov
+            { run t ws ops with
+              trk := fun p u => if p = o.ph ∧ u = o.v then some (.equiv a o.sv) else (run t ws ops).trk p u,
+              eqv := setBit (run t ws ops).eqv (bitPos o.v (phN o.ph)) }
+            { runC key t ws ops with
+              trk := fun p u => if p = o.ph ∧ u = o.v then some (.equiv a o.sv)
+                                else (runC key t ws ops).trk p u,
+              eqv := setBit (runC key t ws ops).eqv (bitPos o.v (phN o.ph)) }
+            (insOf t ws ops)
+          · rw [run_append]; simp [step, importVote, hvl', hslot, addVote, heq]
+          · rw [runC_append]; simp [stepC, importVoteC, hvl', htrk, hslot, addVote, heq]
+          · exact hinv0
+          · exact bs.cum
+          · exact bs.cur
+          · simp only; rw [bs.eqv]
+          · exact ⟨s0.ghost, s0.fin, s0.est⟩
+          · rfl
+          · exact c0
+      | some (.equiv a b) =>
+        have e1 : run t ws (ops ++ [o]) = run t ws ops := by
+          rw [run_append]
+          by_cases heq : a = o.sv ∨ b = o.sv
+          · simp [step, importVote, hvl', hslot, addVote, heq]
+          · simp [step, importVote, hvl', hslot, addVote, heq]
+        have e2 : runC key t ws (ops ++ [o]) = runC key t ws ops := by
+          rw [runC_append]
+          by_cases heq : a = o.sv ∨ b = o.sv
+          · simp [stepC, importVoteC, hvl', htrk, hslot, addVote, heq]
+          · simp [stepC, importVoteC, hvl', htrk, hslot, addVote, heq]
+        rw [e1, e2]; exact c0
+    · have e1 : run t ws (ops ++ [o]) = run t ws ops := by
+        rw [run_append]; unfold step; exact importVote_notVoter t ws _ o.ph o.v o.sv hvl
+      have e2 : runC key t ws (ops ++ [o]) = runC key t ws ops := by
+        rw [runC_append]; unfold stepC; exact importVoteC_notVoter key t ws _ o.ph o.v o.sv hvl
+      rw [e1, e2]; exact c0
 
 end Gossamer.C20
